@@ -87,6 +87,30 @@ def _mk_real_chunk(name, kind, c):
     return strax.Chunk(start=s, end=e, data=a, data_type=name, data_kind=kind, dtype=a.dtype, run_id="0")
 
 
+class HarnessRunaway(Exception):
+    """the code under test keeps asking an exhausted iterator for more (it would loop forever)"""
+
+
+class _GuardedIter:
+    """plain iterator over a list of chunks; a legitimate run sees at most a few StopIterations per dependency"""
+
+    def __init__(self, chunks):
+        self.it = iter(chunks)
+        self.stops = 0
+
+    def __iter__(self):
+        return self
+
+    def __next__(self):
+        try:
+            return next(self.it)
+        except StopIteration:
+            self.stops += 1
+            if self.stops > 25:
+                raise HarnessRunaway("exhausted iterator asked again and again") from None
+            raise
+
+
 def run_real(case):
     """drive the real Plugin.iter; returns ('ok', calls) or ('err', kind, message)"""
     deps = case["deps"]
@@ -100,7 +124,7 @@ def run_real(case):
             p.run_id = "0"
             p.deps = {d["name"]: _FakeDep(d["kind"]) for d in deps}
             p.fix_dtype()
-            iters = {n: iter(chunks[n]) for n in names}
+            iters = {n: _GuardedIter(chunks[n]) for n in names}
             for _ in p.iter(iters):
                 pass
     except Exception as e:  # noqa: BLE001
@@ -186,7 +210,7 @@ def parse_calls(out):
     calls = []
     for tok in body.split(" "):
         parts = tok.split(";")
-        rows = [[] if p == "-" else [tuple(int(x) for x in r.split(":")) for r in p.split(",")] for p in parts[2:]]
+        rows = [[] if p == "-" else [tuple(map(int, r.split(":"))) for r in p.split(",")] for p in parts[2:]]
         calls.append((int(parts[0]), int(parts[1]), rows))
     return calls
 
@@ -316,7 +340,7 @@ def branch_iter(case, out):
     valid = "valid" if f["valid"] else "malformed"
     site = err_site(case, out)
     if site == "ok":
-        site = "ok:calls=" + str(min(len(parse_calls(out)), 6))
+        site = "ok:calls=" + str(min(out.count(" "), 6))
     return f"{valid}:{pol}:{site}"
 
 
